@@ -113,11 +113,10 @@ func TestC30Exhaustive(t *testing.T) {
 	nBlocks := (0x110000 + block - 1) / block
 	unit := 0
 	for _, c := range css {
-		a, aOK := c.enc.EncodeRune([]byte("a"))
+		_, aOK := c.enc.EncodeRune([]byte("a"))
 		if !aOK {
 			st.Class("no-ascii-a:" + c.name)
 		}
-		_ = a
 		for b := 0; b < nBlocks; b++ {
 			unit++
 			if unit%shards != shard {
@@ -175,11 +174,9 @@ func TestC30Exhaustive(t *testing.T) {
 			}
 			st.ClassN("representable:"+c.name, repr)
 			st.ClassN("unrepresentable:"+c.name, unrepr)
-			if b > 0 || true {
-				// one distinct non-trivial item per (charset, block): all runes >= U+0080
-				// of the block were decided (block 0 holds 3968 of them)
-				st.NonTrivial(nil, c.name, b)
-			}
+			// one distinct non-trivial item per (charset, block): all runes >= U+0080 of
+			// the block were decided (block 0 holds 3968 of them)
+			st.NonTrivial(nil, c.name, b)
 		}
 		// Decode direction: every 1- and 2-byte input
 		for hi := -1; hi < 256; hi++ {
@@ -309,13 +306,9 @@ func TestC30(t *testing.T) {
 		} else {
 			st.Class("invalid-utf8")
 			// only "no crash" is demanded for malformed input
-			var ok bool
-			var e []byte
-			e, ok = safeEncode(c, b, st, fail)
-			if ok {
+			if _, ok := safeEncode(c, b, st, fail); ok {
 				st.Class("invalid-utf8-accepted-by-Encode")
 			}
-			_ = e
 			if p, stack := guard(func() { c.enc.EncodeReplaceUnknown(exact(b)) }); p != nil {
 				fail("%s.EncodeReplaceUnknown(%q) panics: %v\n%s", c.name, b, p, stack)
 			}
